@@ -1,5 +1,6 @@
 //! Shared machinery: run context, subject guard, findings classification, evidence, parallel map.
 pub mod noderef;
+pub mod pool;
 use serde_json::{json, Value};
 use std::collections::{BTreeMap, BTreeSet};
 use std::panic::{catch_unwind, AssertUnwindSafe};
